@@ -23,7 +23,7 @@ from ..tree import walk, pp, short_fn, strip_casts
 LEVEL = 'other'
 UNITS = ['src/geodesy/LambertConverter.cpp']
 ENGINES = 'E-ALG + E-INT over romea-facts'
-TECHNIQUE = 'IEEE remainder interpreted, ambient errno tested without being cleared (sweep H1), exits in front of the inverse under an absolute length test, every path of the two helpers on witness (latitude, eccentricity) pairs incl. the sphere, re-mapped constructor fields judged through the forward map on path-conditioned witnesses, sweep of every function read (and its in-repo callees) for frozen function-local statics, single precision inside double computations, lossy copy constructors, presence- or argument-keyed member caches, reference members bound to constructor arguments, loop accumulators that are members, members derived in the constructor and not refreshed by setters, results returned by reference to a member buffer, members filled from an argument under a condition that ignores it, hidden non-virtual base members, self-bound reference members, reductions that accumulate in float; constructors read end to end (delegating constructors, braced aggregates by record field order): the eccentricity the maps use is that of the ellipsoid; hidden-state (function-local static cache) coherence analysis, stopping-tolerance bounds, witness-confirmed residuals; formula extraction from the AST (symbolic reading, no execution) + exact computer algebra (sympy) for the projection identities; interval/sign evaluation of log/pow arguments on both hemispheres'
+TECHNIQUE = 'guards that throw evaluated on parameter sets of the quantifier, additional overloads handing each field to the factory parameter of its name, IEEE remainder interpreted, ambient errno tested without being cleared (sweep H1), exits in front of the inverse under an absolute length test, every path of the two helpers on witness (latitude, eccentricity) pairs incl. the sphere, re-mapped constructor fields judged through the forward map on path-conditioned witnesses, sweep of every function read (and its in-repo callees) for frozen function-local statics, single precision inside double computations, lossy copy constructors, presence- or argument-keyed member caches, reference members bound to constructor arguments, loop accumulators that are members, members derived in the constructor and not refreshed by setters, results returned by reference to a member buffer, members filled from an argument under a condition that ignores it, hidden non-virtual base members, self-bound reference members, reductions that accumulate in float; constructors read end to end (delegating constructors, braced aggregates by record field order): the eccentricity the maps use is that of the ellipsoid; hidden-state (function-local static cache) coherence analysis, stopping-tolerance bounds, witness-confirmed residuals; formula extraction from the AST (symbolic reading, no execution) + exact computer algebra (sympy) for the projection identities; interval/sign evaluation of log/pow arguments on both hemispheres'
 EXPLANATION = ('The projection formulas are extracted from the source as exact symbolic expressions over named atoms (N1, isolat1, n, c ...) with their defining relations; '
                'the identities quoted by the statement (scale 1 on the parallels, origin, central meridian, conformality, inverse consistency) are decided by exact algebra, '
                'and the domain of every log/pow is checked by interval evaluation for northern and southern cones.')
